@@ -2,9 +2,13 @@ use crate::ctx::Ctx;
 
 pub mod c01;
 pub mod c02;
+pub mod c03;
 pub mod c04;
 pub mod c06;
 pub mod c08;
+pub mod c09;
+pub mod c10;
+pub mod c11;
 
 /// Instantiates a generic scenario function for a named (key, value) pair of the element menu.
 #[macro_export]
@@ -61,9 +65,13 @@ pub fn dispatch(c: &mut Ctx) -> bool {
     match c.prop.as_str() {
         "C01" => c01::run(c),
         "C02" => c02::run(c),
+        "C03" => c03::run(c),
         "C04" => c04::run(c),
         "C06" => c06::run(c),
         "C08" => c08::run(c),
+        "C09" => c09::run(c),
+        "C10" => c10::run(c),
+        "C11" => c11::run(c),
         _ => return false,
     }
     true
